@@ -44,9 +44,14 @@ WORDS = ["alpha", "beta", "R&D", "x<y", "a>b", "\"q\"", "it's", "&amp;", "&lt;",
 
 
 def authored(rng):
+    from props import samples
     lines = []
     for _ in range(rng.choice([1, 2, 3])):
-        lines.append(" ".join(rng.choice(WORDS) for _ in range(rng.choice([1, 2, 4]))))
+        if rng.random() < 0.4:
+            # (single blanks only: the serialisers below split and re-join the words of a line)
+            lines.append(" ".join(samples.rich_line(rng, pipe_ok=False).split()))
+        else:
+            lines.append(" ".join(rng.choice(WORDS) for _ in range(rng.choice([1, 2, 4]))))
     return lines
 
 
